@@ -20,7 +20,7 @@
 (*           auction   AuctionBlock    (block proposer)                                            *)
 (*           bbid      BuilderBid      (REST daemon: a beacon node asks for a header) - the        *)
 (*                     SIBLING auction entry point: cached bid, else builderBidMu -> re-check ->   *)
-(*                     immediate auction -> ProposerConfig -> strategy -> cacheBid                 *)
+(*                     immediate auction -> account lookup -> ProposerConfig -> strategy -> cacheBid *)
 (*           register  scheduler job "Submit validator registrations"                              *)
 (*           vreg      ValidatorRegistrations (REST daemon: registrations of a beacon node)        *)
 (*                                                                                                *)
@@ -248,7 +248,9 @@ DoD(o, c) ==
                     /\ IF BidImpl = "leak_on_recheck"
                        THEN rest' = [rest EXCEPT ![o] = <<RU("cache")>> \o Tail(Tail(rest[o]))]   \* no Unlock
                        ELSE Replace(o, <<RU("cache")>>)
-                 \/ c = "miss" /\ Replace(o, <<RU("cache")>> \o Core(i.k, FALSE))
+                 \* immediateBuilderBid asks the account manager for the validator's account (under builderBidMu) and
+                 \* hands it to the auction: the account's name is asked for under the configuration read lock
+                 \/ c = "miss" /\ Replace(o, <<RU("cache"), E("acct", 0)>> \o Core(i.k, TRUE))
            [] i.l = "relays" ->
                  \* the settings cannot be resolved / no relays configured / relays configured
                  \/ c \in {"unresolvable", "none"} /\ Replace(o, <<>>)
